@@ -222,6 +222,10 @@ func runC20Recording(r *Run) {
 	infS := reg2.Stream("distribution", mname(core.MetricInFlight))
 	drpS := reg2.Stream("count", mname(core.MetricDropped))
 	limG := reg2.Gauge(mname(core.MetricLimit))
+	var minS *RecStream
+	if cfg.Wrap == "" && a.NoLoad != nil {
+		minS = reg2.Stream("distribution", mname(core.MetricMinRTT))
+	}
 	if rttS == nil || infS == nil || drpS == nil || limG == nil {
 		r.Fail("sample-metric-missing", outer, "limit %s did not register rtt/inflight/dropped/limit metrics under its name", outer)
 		return
@@ -235,8 +239,20 @@ func runC20Recording(r *Run) {
 			s.Drop, s.RTT = true, 0
 		}
 		n1, n2, n3 := rttS.Len(), infS.Len(), drpS.Len()
+		nMin := 0
+		if minS != nil {
+			nMin = minS.Len()
+		}
 		if p := safeSample(a.Lim, s); p != nil {
 			return
+		}
+		if minS != nil && minS.Len() > nMin {
+			// a min_rtt sample emitted while this sample was processed reports the baseline as it is now
+			if v, _ := minS.Last(); int64(v) != a.NoLoad() {
+				r.Fail("sample-metric-wrong", outer+"/min_rtt", "OnSample%v emitted min_rtt = %v, RTTNoLoad() reports %d right after that sample", s, v, a.NoLoad())
+				return
+			}
+			r.Probe("min_rtt_sample_checked")
 		}
 		if s.Drop {
 			drops++
@@ -401,7 +417,8 @@ func runC20Registry(r *Run, which string) {
 			gaugeN++
 		case 4:
 			a.sk = t.Intn(3, "sample-kind")
-			a.id = []string{"rtt", "inflight", "dropped", ".lead"}[t.Intn(4, "sample-id")] + fmt.Sprint(a.sk)
+			// (the last one: a limit named like the registry's prefix - its metrics are "<prefix><name>.<metric>" all the same)
+			a.id = []string{"rtt", "inflight", "dropped", ".lead", effPrefix + "named-like-prefix"}[t.Intn(5, "sample-id")] + fmt.Sprint(a.sk)
 			a.v = float64(1 + t.Intn(1000, "sample-v"))
 		}
 		acts = append(acts, a)
